@@ -55,3 +55,62 @@ def getIntervalsInInterval(start, end, intervals, mode):
     if mode not in CROP_MODES:
         raise errors.WrongOption("mode", mode, CROP_MODES)
     return [kept_value(e, start, end, mode) for e in intervals if keep(e, start, end, mode)]
+
+
+# ---- constructors (C05) ----------------------------------------------------------------
+# Model of what a constructor builds: entries normalised and sorted, span = hull of the
+# entries and the given bounds, TextgridStateError unless every interval is valid and no
+# two overlap.
+
+from praatio.utilities import utils
+from spec.prims import forall, exists, pairwise, adjacent, strip, is_sorted
+
+
+def norm_interval(e):
+    return Interval(float(e[0]), float(e[1]), strip(e[2]))
+
+
+def norm_point(e):
+    return Point(float(e[0]), strip(e[1]))
+
+
+def hull_lo(values, bound):
+    if bound is None:
+        if len(values) == 0:
+            raise errors.TimelessTextgridTierException()
+        return min(values)
+    return min(values + [float(bound)])
+
+
+def hull_hi(values, bound):
+    if bound is None:
+        if len(values) == 0:
+            raise errors.TimelessTextgridTierException()
+        return max(values)
+    return max(values + [float(bound)])
+
+
+def IntervalTier_init(self, name, entries, minT, maxT):
+    E = sorted([norm_interval(e) for e in entries])
+    lo = hull_lo([e.start for e in E], minT)
+    hi = hull_hi([e.end for e in E], maxT)
+    self.name = name
+    self._entries = E
+    self.minTimestamp = lo
+    self.maxTimestamp = hi
+    self.errorReporter = utils.reportWarning
+    if not forall(E, valid):
+        raise errors.TextgridStateError("")
+    if not pairwise(E, disjoint_ordered):
+        raise errors.TextgridStateError("")
+
+
+def PointTier_init(self, name, entries, minT, maxT):
+    E = sorted([norm_point(e) for e in entries])
+    lo = hull_lo([e.time for e in E], minT)
+    hi = hull_hi([e.time for e in E], maxT)
+    self.name = name
+    self._entries = E
+    self.minTimestamp = lo
+    self.maxTimestamp = hi
+    self.errorReporter = utils.reportWarning
